@@ -191,7 +191,7 @@ def run(ctx):
         key = repr(cfg)
         b = builders.get(key)
         if b is None:
-            b = builders[key] = I.es.ElasticsearchQueryBuilder(**cfg)
+            b = builders[key] = I.es.ElasticsearchQueryBuilder(**es.python_spelling(cfg))
         o = common.load_tree(d)
         r1, _ = es.build(cfg, o, b)
         r2, _ = es.build(cfg, o, b)
@@ -199,7 +199,7 @@ def run(ctx):
         if not (r1 == r2 == r3 == r):
             ctx.fail("the result depends on the builder's history (same builder twice / fresh builder differ)", info)
         if len(reqs_seen) % 4 == 0:
-            hist.check(key, lambda: I.es.ElasticsearchQueryBuilder(**cfg),
+            hist.check(key, lambda: I.es.ElasticsearchQueryBuilder(**es.python_spelling(cfg)),
                        lambda bb, t: es.build(cfg, t, bb)[0], d, info,
                        poison=[es.refused_in_nested(schema)] if schema else ())
         reqs_seen.append(1)
